@@ -192,3 +192,15 @@ def finite_maps(t: Any) -> list:
                         chains.setdefault(a, {})[key] = leaf
     out += list(chains.items())
     return out
+
+
+def raises_when(Sf: Sym, *srcs: str, exc: str = "") -> bool:
+    """Some `raise` of the function (helpers inlined) is reached under a condition one of whose alternatives
+    (DNF conjunction) holds a literal matching each of the given patterns."""
+    for l in Sf.logged("raise"):
+        if exc and not (l.value is not None and exc in sym.show(l.value)[:80]):
+            continue
+        for conj in dnf(l.cond):
+            if all(any(is_(x, s_) is not None for x in conj) for s_ in srcs):
+                return True
+    return False
